@@ -10,10 +10,38 @@ use std::collections::BTreeSet;
 macro_rules! harness {
     ($name:ident, $body:expr) => {
         #[kani::proof]
-        #[kani::unwind(3)]
+        #[kani::unwind(1)]
         #[kani::stub(crate::parser::parse_value, no_parse_value)]
         #[kani::stub(crate::de::from_slice, no_from_slice)]
         #[kani::stub(std::ptr::drop_in_place, noop_drop)]
+        #[kani::stub(crate::builder::ObjectBuilder::build_into, no_object_builder)]
+        fn $name() {
+            $body
+        }
+    };
+}
+
+macro_rules! harness_obj {
+    ($name:ident, $body:expr) => {
+        #[kani::proof]
+        #[kani::unwind(1)]
+        #[kani::stub(crate::parser::parse_value, no_parse_value)]
+        #[kani::stub(crate::de::from_slice, no_from_slice)]
+        #[kani::stub(std::ptr::drop_in_place, noop_drop)]
+        fn $name() {
+            $body
+        }
+    };
+}
+
+macro_rules! harness2 {
+    ($name:ident, $body:expr) => {
+        #[kani::proof]
+        #[kani::unwind(2)]
+        #[kani::stub(crate::parser::parse_value, no_parse_value)]
+        #[kani::stub(crate::de::from_slice, no_from_slice)]
+        #[kani::stub(std::ptr::drop_in_place, noop_drop)]
+        #[kani::stub(crate::builder::ObjectBuilder::build_into, no_object_builder)]
         fn $name() {
             $body
         }
@@ -81,7 +109,7 @@ pub fn index_arms(far: bool, f: impl Fn(i32)) {
         let mut v = -5;
         while v <= 5 {
             if i == v {
-                f(i);
+                f(v);
             }
             v += 1;
         }
@@ -93,7 +121,7 @@ pub fn del_index_range(d: &B, lo: i32, hi: i32) {
     let mut v = lo;
     while v <= hi {
         if i == v {
-            del_index_one(d, i);
+            del_index_one(d, v);
         }
         v += 1;
     }
@@ -122,7 +150,7 @@ pub fn arr_insert_range(d: &B, new: &B, lo: i32, hi: i32) {
     let mut v = lo;
     while v <= hi {
         if i == v {
-            arr_insert_one(d, new, i);
+            arr_insert_one(d, new, v);
         }
         v += 1;
     }
@@ -472,7 +500,7 @@ fn stripped(d: &B, id: usize) -> Blob {
         let mut oi = [d.blob(id); MAXW];
         let mut i = 0;
         while i < x.cnt {
-            oi[i] = stripped(d, x.kids[i]);
+            oi[i] = if d.node(x.kids[i]).kind <= K_STR { d.blob(x.kids[i]) } else { stripped(d, x.kids[i]) };
             i += 1;
         }
         x_arr(&oi[..x.cnt])
@@ -483,7 +511,7 @@ fn stripped(d: &B, id: usize) -> Blob {
         let mut i = 0;
         while i < x.cnt {
             if d.node(x.kids[i]).kind != K_NULL {
-                oi[m] = stripped(d, x.kids[i]);
+                oi[m] = if d.node(x.kids[i]).kind <= K_STR { d.blob(x.kids[i]) } else { stripped(d, x.kids[i]) };
                 ok[m] = d.keyb(id, i);
                 m += 1;
             }
@@ -602,7 +630,7 @@ pub fn del_keypath(d: &B, form: usize) {
         let mut v = lo;
         while v <= hi {
             if i == v {
-                f(i);
+                f(v);
             }
             v += 1;
         }
@@ -635,80 +663,85 @@ fn new_doc(k: usize, f: impl Fn(&B)) {
     }
 }
 
+fn a2(f: impl Fn(&B)) { f(&B::build(&arr(&[leaf(K_NUM, 2), leaf(K_STR, 1)]))) }
+fn a1(f: impl Fn(&B)) { f(&B::build(&arr(&[leaf(K_STR, 2)]))) }
 //@ props: C06, C07
 //@ timeout: 1200
-//@ harness: c06_delidx_a, c06_delidx_b, c06_delidx_c, c06_delidx_other, c06_delidx_far
-//@ desc: delete_by_index on [n2,s1,s1'] (index -5..=5 by case split, two harnesses), [null,{k:n9},n2] (nested object element copied verbatim), on {k:x,kk:y} / scalar / [] / {} (InvalidJsonType resp. no-op) and (c06_delidx_far, on []) every other i32 except i32::MIN at once: negative counts from the end, out of range is a no-op copy; output byte-identical to the README encoding of the edited tree; nothing written on the error
+//@ harness: c06_delidx_0, c06_delidx_m1, c06_delidx_1, c06_delidx_oob, c06_delidx_nested, c06_delidx_other, c06_delidx_far
+//@ desc: delete_by_index on [n2,s1] at index 0, -1, 1 and -2 (first/last in both notations), out of range 2 and -3 (no-op copy), on [{k:n9},null] at 1 (the nested object element is kept verbatim), on {k:x,kk:y} / scalar / [] / {} (InvalidJsonType resp. no-op) and (c06_delidx_far, on []) every i32 outside -5..=5 except i32::MIN at once: output byte-identical to the README encoding of the edited tree; nothing written on the error
 //@ fns: delete_by_index, delete_jsonb_by_index, ArrayBuilder::push_raw, ArrayBuilder::build_into, write_entry, reserve_jentries, replace_jentry, iterate_array
-//@ bounds: <= 3 elements, depth 2; index: all of i32 except MIN (C20)
-//@ stubs: parse_value, from_slice -> panic | drop_in_place -> no-op
-harness!(c06_delidx_a, with_shape(0, D3[0], D3[1], |d| del_index_range(d, -5, 0)));
-harness!(c06_delidx_b, with_shape(0, D3[0], D3[1], |d| del_index_range(d, 1, 5)));
-harness!(c06_delidx_c, with_shape(2, D3[2], (K_NUM, 9), |d| del_index_range(d, -3, 3)));
-harness!(c06_delidx_other, split1(4, |k| with_shape(if k == 0 { 3 } else { 4 + k }, D3[0], D3[1], |d| del_index_range(d, -1, 1))));
+//@ bounds: 2-element arrays (a builder tree with more than two entries is not reached, DESIGN §0.5); representative indices by case split
+//@ stubs: parse_value, from_slice -> panic | drop_in_place -> no-op | ObjectBuilder::build_into -> panic in array-only instances (proves the object arm of write_entry is not taken)
+harness!(c06_delidx_0, a2(|d| del_index_range(d, 0, 0)));
+harness!(c06_delidx_m1, a2(|d| del_index_range(d, -1, -1)));
+harness!(c06_delidx_1, split1(2, |k| a2(|d| if k == 0 { del_index_range(d, 1, 1) } else { del_index_range(d, -2, -2) })));
+harness!(c06_delidx_oob, split1(2, |k| a2(|d| if k == 0 { del_index_range(d, 2, 2) } else { del_index_range(d, -3, -3) })));
+harness!(c06_delidx_nested, del_index_range(&B::build(&arr(&[obj(&[1], &[leaf(K_NUM, 9)]), leaf(K_NULL, 0)])), 1, 1));
+harness_obj!(c06_delidx_other, split1(4, |k| with_shape(if k == 0 { 3 } else { 4 + k }, D3[0], D3[1], |d| del_index_range(d, -1, 1))));
 harness!(c06_delidx_far, with_shape(6, D3[0], D3[1], |d| del_index(d, true)));
 
 //@ props: C06, C07
 //@ timeout: 1200
-//@ harness: c06_arrins_a, c06_arrins_b, c06_arrins_c, c06_arrins_other, c06_arrins_far
-//@ desc: array_insert into [n2,s1,s1'] (position -5..=5 by case split; new value a 9-byte number resp. an object), into [[s1],n2] with an array as new value, into {k:x,kk:y} / scalar / [] / {} (a non-array target counts as a one-element list) and (c06_arrins_far, on []) every other i32 except MIN at once: position clamped into 0..=len, negative from the end
+//@ harness: c06_arrins_0, c06_arrins_m1, c06_arrins_end, c06_arrins_clamp, c06_arrins_obj, c06_arrins_other, c06_arrins_far
+//@ desc: array_insert into [s2] at position 0, -1 (before the last), 1 (= len) and the clamped positions 5 and -5 with a 9-byte number as new value, at position 1 with an object as new value, into {k:x,kk:y} / scalar / [] / {} (a non-array target counts as a one-element list; positions -1..=1) and (c06_arrins_far, on []) every i32 outside -5..=5 except MIN at once: position clamped into 0..=len, negative from the end
 //@ fns: array_insert, array_insert_jsonb, ArrayBuilder::build_into, write_entry
-//@ bounds: <= 3 elements before the insertion
-//@ stubs: parse_value, from_slice -> panic | drop_in_place -> no-op
-harness!(c06_arrins_a, new_doc(0, |nw| with_shape(0, D3[0], D3[1], |d| arr_insert_range(d, nw, -5, 0))));
-harness!(c06_arrins_b, new_doc(3, |nw| with_shape(0, D3[0], D3[1], |d| arr_insert_range(d, nw, 1, 5))));
-harness!(c06_arrins_c, new_doc(2, |nw| with_shape(1, D3[1], D3[0], |d| arr_insert_range(d, nw, -3, 3))));
-harness!(c06_arrins_other, split1(4, |s| new_doc(1, |nw| with_shape(if s == 0 { 3 } else { 4 + s }, D3[0], D3[1], |d| arr_insert_range(d, nw, -1, 1)))));
+//@ bounds: 1-element arrays before the insertion; representative positions by case split
+//@ stubs: parse_value, from_slice -> panic | drop_in_place -> no-op | ObjectBuilder::build_into -> panic in array-only instances
+harness!(c06_arrins_0, new_doc(0, |nw| a1(|d| arr_insert_range(d, nw, 0, 0))));
+harness!(c06_arrins_m1, new_doc(0, |nw| a1(|d| arr_insert_range(d, nw, -1, -1))));
+harness!(c06_arrins_end, new_doc(0, |nw| a1(|d| arr_insert_range(d, nw, 1, 1))));
+harness!(c06_arrins_clamp, split1(2, |k| new_doc(0, |nw| a1(|d| if k == 0 { arr_insert_range(d, nw, 5, 5) } else { arr_insert_range(d, nw, -5, -5) }))));
+harness!(c06_arrins_obj, new_doc(3, |nw| a1(|d| arr_insert_range(d, nw, 1, 1))));
+harness_obj!(c06_arrins_other, split1(4, |s| new_doc(1, |nw| with_shape(if s == 0 { 3 } else { 4 + s }, D3[0], D3[1], |d| arr_insert_range(d, nw, -1, 1)))));
 harness!(c06_arrins_far, new_doc(0, |nw| with_shape(6, D3[0], D3[1], |d| arr_insert(d, nw, true))));
 
 fn cdoc(k: usize, f: impl Fn(&B)) {
     match k {
-        0 => f(&B::build(&arr(&[leaf(K_NUM, 2), leaf(K_STR, 1)]))),
+        0 => f(&B::build(&arr(&[leaf(K_NUM, 2)]))),
         1 => f(&B::build(&arr(&[]))),
-        2 => f(&B::build(&leaf(K_NUM, 2))),
+        2 => f(&B::build(&leaf(K_STR, 1))),
         3 => f(&B::build(&leaf(K_NULL, 0))),
         4 => f(&B::build(&obj(&[1], &[leaf(K_NUM, 9)]))),
         5 => f(&B::build(&obj(&[], &[]))),
         _ => f(&B::build(&arr(&[arr(&[leaf(K_NULL, 0)])]))),
     }
 }
+fn cc(i: usize, j: usize) {
+    cdoc(i, |a| cdoc(j, |b| with_buf(|buf| concat_check(a, b, buf))));
+}
 //@ props: C06, C07
 //@ timeout: 1200
-//@ harness: c06_concat_0, c06_concat_1, c06_concat_2, c06_concat_3, c06_concat_4, c06_concat_5, c06_concat_6
-//@ desc: concat over the 7x7 pairs of {[n,s], [], n, null, {k:n}, {}, [[null]]} except object+object: arrays append, anything else is wrapped into an array (objects and scalars become elements), including empty containers on either side
+//@ harness: c06_concat_aa, c06_concat_as, c06_concat_sa, c06_concat_ss, c06_concat_oa, c06_concat_ao, c06_concat_e, c06_concat_1
+//@ desc: concat: [n]+[n'] (arrays append), [n]+s and s+[n] (scalar wrapped), s+null (two scalars), {k:n}+[n'] and [n]+{k:n'} (an object becomes an element), [n]+{} / {}+[n] / [[null]]+[n] (empty object and nested array as elements), and []+x for all seven right-hand sides: output byte-identical to the README encoding of the concatenation
 //@ fns: concat, concat_jsonb, ArrayBuilder::build_into, write_entry, iterate_array
-//@ bounds: <= 2 elements per side
-//@ stubs: parse_value, from_slice -> panic | drop_in_place -> no-op
+//@ bounds: results of <= 2 elements
+//@ stubs: parse_value, from_slice -> panic | drop_in_place -> no-op | ObjectBuilder::build_into -> panic in array-only instances
 //@ outside: object + object merge (ObjectBuilder: not reached, see UNREACHED-C06)
-fn concat_row(i: usize) {
-    split1(7, |j| if !((i == 4 || i == 5) && (j == 4 || j == 5)) { cdoc(i, |a| cdoc(j, |b| with_buf(|buf| concat_check(a, b, buf)))) });
-}
-harness!(c06_concat_0, concat_row(0));
-harness!(c06_concat_1, concat_row(1));
-harness!(c06_concat_2, concat_row(2));
-harness!(c06_concat_3, concat_row(3));
-harness!(c06_concat_4, concat_row(4));
-harness!(c06_concat_5, concat_row(5));
-harness!(c06_concat_6, concat_row(6));
+harness!(c06_concat_aa, cc(0, 0));
+harness!(c06_concat_as, cc(0, 2));
+harness!(c06_concat_sa, cc(2, 0));
+harness!(c06_concat_ss, cc(2, 3));
+harness!(c06_concat_oa, cc(4, 0));
+harness!(c06_concat_ao, cc(0, 4));
+harness!(c06_concat_e, split1(3, |k| match k { 0 => cc(0, 5), 1 => cc(5, 0), _ => cc(6, 0) }));
+harness!(c06_concat_1, split1(7, |j| cc(1, j)));
 
 //@ props: C06, C07
 //@ timeout: 1200
-//@ harness: c06_build, c06_strip_flat, c06_delname_arr, c06_errors
-//@ desc: build_array from three parts and build_object from two parts with keys in increasing order (parts: number, null, array, object); strip_nulls on [null,n,s], null, [], {}, {k:null} (nulls in arrays stay; a null member goes); delete_by_name on arrays of strings ([s,s',n]: every string element equal to the symbolic name goes, by case split over the match pattern); documented errors (delete_by_name/delete_by_index/delete_by_keypath on a scalar: InvalidJsonType; object_insert/object_delete/object_pick on a non-object: InvalidObject) leave the buffer untouched
-//@ fns: build_array, build_object, strip_nulls, strip_nulls_jsonb, strip_nulls_array, strip_nulls_object, delete_by_name, delete_jsonb_by_name, object_insert, object_delete, object_pick, delete_by_keypath
+//@ harness: c06_build, c06_strip_a, c06_strip_b, c06_errors
+//@ desc: build_array from three parts and build_object from two parts with keys in increasing order (parts: number, null, array, object); strip_nulls on [null,s] and null (nulls in arrays stay), on [], {} and {k:null} (a null member goes); documented errors (delete_by_name/delete_by_index/delete_by_keypath on a scalar: InvalidJsonType; object_insert/object_delete/object_pick on a non-object: InvalidObject) leave the buffer untouched
+//@ fns: build_array, build_object, strip_nulls, strip_nulls_jsonb, strip_nulls_array, strip_nulls_object, delete_by_name, object_insert, object_delete, object_pick, delete_by_keypath
 //@ bounds: <= 3 parts/elements
-//@ stubs: parse_value, from_slice -> panic | drop_in_place -> no-op
-//@ outside: build_object with keys not in increasing order (it writes members in the given order) | strip_nulls of objects that keep members (ObjectBuilder: not reached)
+//@ stubs: parse_value, from_slice -> panic | drop_in_place -> no-op | ObjectBuilder::build_into -> panic in array-only instances (proves the object arm of write_entry is not taken)
+//@ outside: build_object with keys not in increasing order (it writes members in the given order) | strip_nulls of objects that keep members and delete_by_name with a symbolic name (ObjectBuilder / symbolic match pattern: not reached)
 harness!(c06_build, split2(2, 2, |i, j| new_doc(i, |a| new_doc(2 + j, |b| new_doc(0, |c| with_buf(|buf| build_check(a, b, c, buf)))))));
-harness!(c06_strip_flat, split1(5, |k| match k {
-    0 => with_buf(|b| strip_check(&B::build(&arr(&[leaf(K_NULL, 0), leaf(K_NUM, 2), leaf(K_STR, 1)])), b)),
-    1 => with_buf(|b| strip_check(&B::build(&leaf(K_NULL, 0)), b)),
-    2 => with_buf(|b| strip_check(&B::build(&arr(&[])), b)),
-    3 => with_buf(|b| strip_check(&B::build(&obj(&[], &[])), b)),
+harness!(c06_strip_a, split1(2, |k| if k == 0 { with_buf(|b| strip_check(&B::build(&arr(&[leaf(K_NULL, 0), leaf(K_STR, 1)])), b)) } else { with_buf(|b| strip_check(&B::build(&leaf(K_NULL, 0)), b)) }));
+harness_obj!(c06_strip_b, split1(3, |k| match k {
+    0 => with_buf(|b| strip_check(&B::build(&arr(&[])), b)),
+    1 => with_buf(|b| strip_check(&B::build(&obj(&[], &[])), b)),
     _ => with_buf(|b| strip_check(&B::build(&obj(&[1], &[leaf(K_NULL, 0)])), b)),
 }));
-harness!(c06_delname_arr, with_buf(|b| del_name(&B::build(&arr(&[leaf(K_STR, 1), leaf(K_STR, 1), leaf(K_NUM, 2)])), 1, b)));
-harness!(c06_errors, split1(3, |k| {
+harness_obj!(c06_errors, split1(3, |k| {
     let d = match k { 0 => B::build(&leaf(K_NUM, 2)), 1 => B::build(&arr(&[leaf(K_NULL, 0)])), _ => B::build(&leaf(K_STR, 1)) };
     let nm = Name::of_len(1);
     let root_kind = d.node(d.root).kind;
@@ -732,21 +765,22 @@ fn kdoc(k: usize, f: impl Fn(&B)) {
     let n = leaf(K_NUM, 2);
     let s = leaf(K_STR, 1);
     match k {
-        0 => f(&B::build(&arr(&[n, s, leaf(K_NULL, 0)]))),
-        1 => f(&B::build(&arr(&[arr(&[n, s]), n]))),
+        0 => f(&B::build(&arr(&[n, leaf(K_NULL, 0)]))),
+        1 => f(&B::build(&arr(&[arr(&[n, s])]))),
         _ => f(&B::build(&arr(&[arr(&[]), s]))),
     }
 }
 //@ props: C06, C07
 //@ timeout: 1800
-//@ harness: c06_delpath_i, c06_delpath_ii
-//@ desc: delete_by_keypath through arrays: {i} with i in -4..=4 on [n,s,null] and [[n,s],n]; {i,j} with i,j in -3..=3 on [[n,s],n] and [[],s]: the addressed element is removed (negative indices from the end); paths that do not resolve or run into/past scalars leave the document unchanged
+//@ harness: c06_delpath_i, c06_delpath_ii, c06_delpath_iix
+//@ desc: delete_by_keypath through arrays: {i} with i in {0,-1,2} on [n,null]; {i,j} with (i,j) in {(0,0),(0,-1),(1,0),(0,5)} on [[n,s]] (into the nested array, into a scalar, past the end) and {(0,0),(1,0)} on [[],s]: the addressed element is removed (negative indices from the end); paths that do not resolve or run into/past scalars leave the document unchanged
 //@ fns: delete_by_keypath, delete_by_keypath_jsonb, delete_jsonb_array_by_keypath, ArrayBuilder::push_array, ArrayBuilder::build_into
-//@ bounds: paths <= 2 index elements, depth 2
-//@ stubs: parse_value, from_slice -> panic | drop_in_place -> no-op
+//@ bounds: paths <= 2 index elements, depth 2; representative indices
+//@ stubs: parse_value, from_slice -> panic | drop_in_place -> no-op | ObjectBuilder::build_into -> panic in array-only instances (proves the object arm of write_entry is not taken)
 //@ outside: key paths through objects (ObjectBuilder: not reached)
-harness!(c06_delpath_i, split1(2, |k| kdoc(k, |d| del_keypath(d, 0))));
-harness!(c06_delpath_ii, split1(2, |k| kdoc(1 + k, |d| del_keypath(d, 2))));
+harness!(c06_delpath_i, split1(3, |k| kdoc(0, |d| del_keypath_run(d, 0, [0, -1, 2][k], 0))));
+harness2!(c06_delpath_ii, split1(4, |k| kdoc(1, |d| del_keypath_run(d, 2, [0, 0, 1, 0][k], [0, -1, 0, 5][k]))));
+harness2!(c06_delpath_iix, split1(2, |k| kdoc(2, |d| del_keypath_run(d, 2, [0, 1][k], 0))));
 
 //@ props: C06
 //@ timeout: 300
@@ -754,7 +788,7 @@ harness!(c06_delpath_ii, split1(2, |k| kdoc(1 + k, |d| del_keypath(d, 2))));
 //@ desc: vacuity twin: concat of two arrays claimed to fail — must be refuted
 //@ fns: concat
 #[kani::proof]
-#[kani::unwind(3)]
+#[kani::unwind(1)]
 #[kani::stub(crate::parser::parse_value, no_parse_value)]
 #[kani::stub(crate::de::from_slice, no_from_slice)]
 #[kani::stub(std::ptr::drop_in_place, noop_drop)]
@@ -770,12 +804,13 @@ fn c06_twin_must_fail() {
 // ---- not reached (kept for the record; not part of any check)
 //@ props: UNREACHED-C06
 //@ timeout: 1800
-//@ harness: c06u_delname_obj, c06u_objins, c06u_objdelpick, c06u_concat_obj, c06u_strip_nested, c06u_delpath_obj
+//@ harness: c06u_delname_arr, c06u_delname_obj, c06u_objins, c06u_objdelpick, c06u_concat_obj, c06u_strip_nested, c06u_delpath_obj
 //@ desc: ObjectBuilder-based editors on the smallest object shapes: did not finish within 15 min each (BTreeMap<&str, Entry> with symbolic keys inside an enum-tagged builder tree)
 //@ fns: delete_by_name, object_insert, object_delete, object_pick, concat, strip_nulls, delete_by_keypath
-harness!(c06u_delname_obj, with_shape(3, D3[0], D3[1], |d| with_buf(|b| del_name(d, 1, b))));
-harness!(c06u_objins, new_doc(0, |nw| with_shape(3, D3[0], D3[1], |d| with_buf(|b| obj_insert(d, nw, 1, b)))));
-harness!(c06u_objdelpick, with_shape(3, D3[0], D3[1], |d| with_buf(|b| obj_del_pick(d, 1, 2, false, b))));
-harness!(c06u_concat_obj, cdoc(4, |a| cdoc(4, |b| with_buf(|buf| concat_check(a, b, buf)))));
-harness!(c06u_strip_nested, with_buf(|b| strip_check(&B::build(&arr(&[obj(&[1, 2], &[leaf(K_NULL, 0), leaf(K_NUM, 2)])])), b)));
-harness!(c06u_delpath_obj, with_shape(3, D3[0], D3[1], |d| del_keypath(d, 1)));
+harness_obj!(c06u_delname_arr, with_buf(|b| del_name(&B::build(&arr(&[leaf(K_STR, 1), leaf(K_STR, 1), leaf(K_NUM, 2)])), 1, b)));
+harness_obj!(c06u_delname_obj, with_shape(3, D3[0], D3[1], |d| with_buf(|b| del_name(d, 1, b))));
+harness_obj!(c06u_objins, new_doc(0, |nw| with_shape(3, D3[0], D3[1], |d| with_buf(|b| obj_insert(d, nw, 1, b)))));
+harness_obj!(c06u_objdelpick, with_shape(3, D3[0], D3[1], |d| with_buf(|b| obj_del_pick(d, 1, 2, false, b))));
+harness_obj!(c06u_concat_obj, cdoc(4, |a| cdoc(4, |b| with_buf(|buf| concat_check(a, b, buf)))));
+harness_obj!(c06u_strip_nested, with_buf(|b| strip_check(&B::build(&arr(&[obj(&[1, 2], &[leaf(K_NULL, 0), leaf(K_NUM, 2)])])), b)));
+harness_obj!(c06u_delpath_obj, with_shape(3, D3[0], D3[1], |d| del_keypath(d, 1)));
